@@ -109,8 +109,14 @@ func c17(c *vc.Ctx) {
 	redLen := vc.Pick(c, 4, 5)
 	subjLen := 3
 	subjects := c17Subjects(subjLen)
-	c.Rule = fmt.Sprintf("all patterns of <=%d symbols over %q plus all of exactly %d..%d symbols over %q; modes EntireString x {plain, ExtendedOperators (patterns with '('), NoGlobCase (patterns with letters or '[')}; every pattern's regexp is run on all %d subjects (strings <=%d over %q) plus pattern-derived subjects, and the set of matching subjects is compared with bash 5.2 `case $s in $p)` (extglob/nocasematch set accordingly). !(...) patterns go through internal.ExtendedPatternMatcher. Unanchored mode 0 and Shortest are checked for consistency with the anchored language. distinct = distinct (mode, match-set) outcomes", fullLen, full, fullLen+1, redLen, reduced, len(subjects), subjLen, c17SubjAlphabet)
-	c.Assumptions = []string{"bash 5.2.15 in LC_ALL=C.utf8 is the oracle for pattern semantics", "a syntax error is accepted only for patterns in a loose malformed class (trailing backslash, [: [. [= elements, reversed range)", "Filenames/GlobLeadingDot/globstar modes are judged through real pathname expansion in C19"}
+	fnAlpha := []string{"a", "*", "?", "[", "]", "!", `\`, "/", "."}
+	fnLen := vc.Pick(c, 4, 5)
+	fnMore := vc.Pick(c, false, true)
+	c.Rule = fmt.Sprintf("all patterns of <=%d symbols over %q plus all of exactly %d..%d symbols over %q; modes EntireString x {plain, ExtendedOperators (patterns with '('), NoGlobCase (patterns with letters or '[')}; every pattern's regexp is run on all %d subjects (strings <=%d over %q) plus pattern-derived subjects, and the set of matching subjects is compared with bash 5.2 `case $s in $p)` (extglob/nocasematch set accordingly). !(...) patterns go through internal.ExtendedPatternMatcher. Unanchored mode 0 and Shortest are checked for consistency with the anchored language. Filenames dimension: the patterns of <=%d symbols over the first alphabet plus all of exactly %d..%d symbols over %q (patterns starting with '/' excepted), in modes Filenames|EntireString|NoGlobStar x {plain, GlobLeadingDot, NoGlobCase (letters or '['), ExtendedOperators ('(')%s} and Filenames|EntireString x {plain, GlobLeadingDot} for patterns holding '**'; the set of paths accepted by the regexp is compared with what bash 5.2 pathname expansion of the unquoted pattern returns (dotglob/nocaseglob/extglob/globstar as per mode, nullglob) in a directory tree holding %d subject paths (one- and two-level paths with component names of <=2 characters over %q / %q, each also with a trailing slash) and in a private tree holding the pattern-derived paths; every path bash returns must be accepted as well. distinct = distinct (mode, match-set) outcomes", fullLen, full, fullLen+1, redLen, reduced, len(subjects), subjLen, c17SubjAlphabet,
+		fullLen, fullLen+1, fnLen, fnAlpha, map[bool]string{false: "", true: ", NoGlobCase|GlobLeadingDot, ExtendedOperators|GlobLeadingDot"}[fnMore], c17FnSubjectCount(), c17FnAlpha1, c17FnAlpha2)
+	c.Assumptions = []string{"bash 5.2.15 in LC_ALL=C.utf8 is the oracle for pattern semantics", "a syntax error is accepted only for patterns in a loose malformed class (trailing backslash, [: [. [= elements, reversed range)", "Filenames modes: bash 5.2.15 pathname expansion in a scratch directory tree is the oracle (not a model of it); a pattern that bash hands back verbatim without treating it as a pattern (no unquoted *, ?, or [..] as bash sees it) is judged by the documented rule instead: it matches exactly its own text with the backslash escapes removed (case-insensitively with NoGlobCase)",
+		"Filenames without EntireString is not enumerated (documented as meaningless); the behaviour of expand's own pathname expansion built on these expressions is C19's subject"}
+	defer c17FnCleanup()
 
 	var subjDecl strings.Builder
 	subjDecl.WriteString("S=(")
@@ -145,6 +151,20 @@ chk() { # id flag expected pattern extras...
 				}
 			}
 		}
+		// the Filenames dimension first
+		genFn := func(p string) {
+			for _, m := range c17FnModes(p, fnMore) {
+				emit(patCase{p, uint(m)})
+			}
+		}
+		enum.Strings(full, fullLen, genFn)
+		for n := fullLen + 1; n <= fnLen; n++ {
+			enum.Seqs(fnAlpha, n, func(s []string) {
+				if len(s) == n {
+					genFn(strings.Join(s, ""))
+				}
+			})
+		}
 		enum.Strings(full, fullLen, gen)
 		for n := fullLen + 1; n <= redLen; n++ {
 			enum.Seqs(reduced, n, func(s []string) {
@@ -166,8 +186,23 @@ chk() { # id flag expected pattern extras...
 		}
 		var pend []pending
 		curOpts := ""
+		var fnIdx []int
+		for i, pc := range batch {
+			if pattern.Mode(pc.Mode)&pattern.Filenames != 0 {
+				fnIdx = append(fnIdx, i)
+			}
+		}
+		if len(fnIdx) > 0 {
+			c17FilenamesBatch(c, batch, fnIdx, fails)
+			if len(fnIdx) == len(batch) {
+				return fails
+			}
+		}
 		for i, pc := range batch {
 			mode := pattern.Mode(pc.Mode)
+			if mode&pattern.Filenames != 0 {
+				continue
+			}
 			key := fmt.Sprintf("%q mode=%s", pc.Pat, modeString(mode))
 			var match func(string) bool
 			var expr string
@@ -322,6 +357,7 @@ chk() { # id flag expected pattern extras...
 		}
 		return fails
 	})
+	c17FnCleanup()
 	c.Finish(complete)
 }
 
